@@ -39,7 +39,9 @@ def tie(ctx, progs, spec, variants, tag='mt', step=1):
     cex, broken = [], []
     for v in vs:
         for par in MODEL_VARIANTS[v]:
-            impl, il, raw = S.run_impl(ctx, [(progs[k], v, par, S.budget_for(spec[k][1])) for k in sel], '%s-i%sx%d' % (tag, v, par))
+            # runs that exhaust the budget are not compared here: a smaller budget only skips them sooner
+            cap = 40000 if ctx.tier == 'quick' else 10 ** 9
+            impl, il, raw = S.run_impl(ctx, [(progs[k], v, par, min(cap, S.budget_for(spec[k][1]))) for k in sel], '%s-i%sx%d' % (tag, v, par))
             cmpk, mlines = [], []
             for j, k in enumerate(sel):
                 kind = impl[j][0]
